@@ -724,7 +724,16 @@ func (g *vgen) intExpr(vars []string, d int) string {
 // operand must keep the value it had (the call's arguments are evaluated in the caller's frame)
 func (g *vgen) leftThenAssign(v string, vars []string) string {
 	var arg string
-	switch g.r.Intn(5) {
+	switch g.r.Intn(8) {
+	case 5:
+		arg = v + " := " + g.intExpr(vars, 1)
+	case 6:
+		arg = v + " := " + v + " + " + fmt.Sprint(1+g.r.Intn(12))
+	case 7:
+		// the store is the right operand itself, not a call argument: in parentheses, under a further infix, in an index
+		st := "(" + v + []string{" := ", " = "}[g.r.Intn(2)] + g.intExpr(vars, 1) + ")"
+		wrap := []string{st, "(1 + " + st + ")", "(" + g.intExpr(vars, 1) + " - (2 * " + st + "))", "[0, " + st + "][1]", "[5, 6, 7][" + st + " * 0 + 1]"}[g.r.Intn(5)]
+		return v + " " + []string{"+", "-", "*", "==", "<"}[g.r.Intn(5)] + " " + wrap
 	case 0:
 		arg = v + " = " + g.intExpr(vars, 1)
 	case 1:
@@ -876,7 +885,38 @@ func (g *vgen) function() string {
 	return src
 }
 
+// a macro whose body defines and calls functions with integer parameters and unquotes their results (the bare
+// parameter, a computed value, a mutated parameter, a loop result), then a use of the macro
+func (g *vgen) macroInput() string {
+	*g.nfn++
+	m := fmt.Sprintf("mc%d", *g.nfn)
+	fa, fb := m+"a", m+"b"
+	bodies := []string{"k", "k*2+1", "k=k+3; k", "k++; k", "t=0; for j=k {t=t+j}; t", "for j=k {j}", "if k>2 {k} else {0-k}", "k - (k := 2)"}
+	defs := fmt.Sprintf("%s = func(k){%s}; %s = func(a,k){%s}", fa, bodies[g.r.Intn(len(bodies))], fb, strings.ReplaceAll(bodies[g.r.Intn(len(bodies))], "j", "a+j*0+j"))
+	x, y := 1+g.r.Intn(6), 1+g.r.Intn(6)
+	var q, use string
+	switch g.r.Intn(4) {
+	case 0:
+		q = fmt.Sprintf("quote(unquote(%s(%d)))", fa, x)
+	case 1:
+		q = fmt.Sprintf("quote(unquote(%s(%d)) + unquote(%s(%d,%d)))", fa, x, fb, y, x)
+	case 2:
+		q = fmt.Sprintf("quote([unquote(%s(%d,%d)), unquote(%s(%d)) * 2])", fb, x, y, fa, y)
+	default:
+		q = fmt.Sprintf("quote(if unquote(%s(%d)) > 2 {unquote(%s(%d,%d))} else {0})", fa, x, fb, x, y)
+	}
+	if g.r.Bool() {
+		use = fmt.Sprintf("println(%s())", m)
+		return fmt.Sprintf("%s = macro(){ %s; %s }; %s", m, defs, q, use)
+	}
+	use = fmt.Sprintf("for tv0=2 {println(%s(tv0+%d))}", m, x)
+	return fmt.Sprintf("%s = macro(z){ %s; quote(unquote(z) + %s) }; %s", m, defs, strings.TrimPrefix(q, "quote"), use)
+}
+
 func (g *vgen) input() string {
+	if g.r.Pct(8) {
+		return g.macroInput()
+	}
 	var parts []string
 	nf := g.r.Intn(3)
 	if len(g.defs) == 0 {
@@ -941,6 +981,8 @@ var fixedCorpus = [][]string{
 	{`func mk(a,b){()=>a+b};mk(1,2)()`},
 	{`func n(){5};func f(n){n()};f(1)`}, {`m={"n":4};func f(n){m.n+n};f(1)`}, {`m={"n":4};func f(n){del(m.n);m};f(1)`},
 	{`func f(n){{n:print("a"), n:print("b")}};f(1)`}, {`for n=0:2{println({n:1, n:2})}`},
+	{`func f(n){ n + (n := 5) }; f(1)`}, {`for i = 3 { println(i + (i := 10)) }`}, {`func h(a,b,c){ r = a - (b + (a := c)); [r,a] }; h(10,2,3)`},
+	{`m = macro(){ id = func(k){k}; quote(unquote(id(3))) }; m()`}, {`m2 = macro(z){ f = func(k){k*2+1}; quote(unquote(z) + unquote(f(4))) }; println(m2(10))`},
 	{`func f(n) { n + idl(n = 10) }; f(1)`}, {`func f(n){ n * dec1(n = n - 1) }; f(5)`}, {`for i = 3 { println(i * id1(i = i + 10)) }`},
 	{`func f(n){ n - len([n = 7, 0]) + (n % (3 + mobj.f(n = n + 2))) }; f(20)`},
 	{`for i=5 { if i==3 {break}; i }`}, {`for i=4 { if i==3 {continue}; i }`}, {`func f(n){n + (n=5)};f(1)`}, {`func f(n){del(n);5};f(1)`},
